@@ -28,7 +28,7 @@ STUBS = [
     'header values in the totality obligation are bounded to 3 characters (4 for Forwarded/Host/Cookie shapes)',
 ]
 OUTSIDE = ['HTTP-date parsing for arbitrary strings', 'header values longer than the bounds', 'numeric headers with more than 3 digits']
-BUDGET = {'quick': 280, 'thorough': 2400}
+BUDGET = {'quick': 280, 'thorough': 900}
 
 
 def mkreq(asgi, headers, path='/p', query='', scheme='http', host='example.org', port=80, root=''):
